@@ -8,17 +8,19 @@ torn lengths for each write) is enumerated, followed by reconstruction and
 further writes.  Oracle: rotated files (oldest first) + current file form a
 contiguous piece of the written stream.
 """
+import errno
 import os
 
 from twisted.python import logfile
 
 from detsim import fs as simfs
+from detsim.sim import StepLimit, Violation
 
 ID = "C53"
 ENGINE = "fs"
 LEVEL = "fault_enumeration"
 TECHNIQUE = "deterministic simulation: crash at every interposed filesystem call (+ torn writes) of seeded LogFile histories, contiguous-suffix oracle"
-QUICK_RUNS = 3000
+QUICK_RUNS = 1800
 BATCH = 10
 COMPONENTS = {"real": ["twisted.python.logfile.LogFile/BaseLogFile (write, rotate, reopen, close, listLogs, _openFile)", "the real filesystem under a scratch directory (reads)"],
               "stub": ["process/kernel boundary for mutating calls (detsim.fs interposer: crash points, torn writes)"]}
@@ -65,6 +67,62 @@ def _enc(d):
     return d.encode("utf8") if isinstance(d, str) else d
 
 
+# errno-injection family: errors a kernel can plausibly return for each interposed call (first = simplest).  ENOENT is left
+# out on purpose: it would claim that a file which is really there has vanished.
+ERRNOS = {
+    "write": [errno.EIO, errno.ENOSPC, errno.EDQUOT, errno.EFBIG],
+    "rename": [errno.EIO, errno.EACCES, errno.ENOSPC, errno.EBUSY, errno.EPERM, errno.EROFS],
+    "remove": [errno.EIO, errno.EACCES, errno.EBUSY, errno.EPERM, errno.EROFS],
+    "open": [errno.EIO, errno.EACCES, errno.ENOSPC, errno.EMFILE, errno.EROFS],
+    "chmod": [errno.EIO, errno.EPERM, errno.EROFS],
+}
+REACTIONS = ["continue", "reconstruct", "retry", "reconstruct+retry"]
+
+
+def _match(segs, allb):
+    """segs = [(bytes, completed)] in write order.  The admissible streams are the concatenations in which every
+    completed write appears whole and every write that RAISED appears as any prefix of itself (absent .. whole).
+    Returns None when allb is a suffix of no admissible stream, else the least number of bytes of COMPLETED writes
+    that are missing in front of it (0 = nothing that was acknowledged is lost)."""
+    n = len(segs)
+    done_before = [0] * (n + 1)
+    for i, (b, c) in enumerate(segs):
+        done_before[i + 1] = done_before[i] + (len(b) if c else 0)
+    memo = {}
+
+    def f(i, pos):
+        if pos == 0:
+            return done_before[i]
+        if i == 0:
+            return None
+        key = (i, pos)
+        if key in memo:
+            return memo[key]
+        b, c = segs[i - 1]
+        best = None
+        if c:
+            L = len(b)
+            if pos >= L:
+                if allb[pos - L:pos] == b:
+                    best = f(i - 1, pos - L)
+            elif b.endswith(allb[:pos]):
+                best = (L - pos) + done_before[i - 1]
+        else:
+            for p in range(len(b), -1, -1):
+                if pos >= p:
+                    r = f(i - 1, pos - p) if allb[pos - p:pos] == b[:p] else None
+                else:
+                    r = done_before[i - 1] if b[:p].endswith(allb[:pos]) else None
+                if r is not None and (best is None or r < best):
+                    best = r
+                    if best == 0:
+                        break
+        memo[key] = best
+        return best
+
+    return f(n, len(allb))
+
+
 def _enumerate(sim, F, rot, keep, ops, extra):
     d = os.path.join(F.root, "logs")
 
@@ -101,12 +159,18 @@ def _enumerate(sim, F, rot, keep, ops, extra):
         return nums, parts, cur
 
     class Runner:
+        size_wit = "auto"
+
         def __init__(self, check):
             self.check = check
             self.stream = b""          # everything whose write() completed
             self.auto_rotations = 0
             self.rotations = 0
             self.in_write = False
+            self.lf = None
+            self.construct()
+
+        def construct(self):
             self.lf = self._wrap(make())
 
         def _wrap(self, lf):
@@ -116,9 +180,9 @@ def _enumerate(sim, F, rot, keep, ops, extra):
                 if self.in_write:
                     self.auto_rotations += 1
                     sim.probe("auto_rotation")
-                    if self.check:
+                    if self.check and os.path.exists(os.path.join(d, "app.log")):
                         size = os.path.getsize(os.path.join(d, "app.log"))
-                        sim.check("rotated-file-at-least-rotateLength", size >= rot, "auto",
+                        sim.check("rotated-file-at-least-rotateLength", size >= rot, self.size_wit,
                                   "size-triggered rotation of a %d-byte file with rotateLength=%d" % (size, rot))
                 self.rotations += 1
                 return real()
@@ -135,14 +199,17 @@ def _enumerate(sim, F, rot, keep, ops, extra):
                     lf.write(data)
                 finally:
                     self.in_write = False
-                self.stream += _enc(data)
+                self.completed(_enc(data))
             elif kind == "rotate":
                 lf.rotate()
             elif kind == "reopen":
                 lf.reopen()
             else:
                 lf.close()
-                self.lf = self._wrap(make())
+                self.construct()
+
+        def completed(self, data):
+            self.stream += data
 
     def oracle(full_lo, full_hi_stream, wit, ctx, strict_no_loss, expect_rotated=None):
         """Concatenation must equal stream[s:e] with len(full_lo) <= e <= len(full_hi_stream) — i.e. it
@@ -234,5 +301,121 @@ def _enumerate(sim, F, rot, keep, ops, extra):
                       lambda: "%s after reconstruction and %d more bytes the files hold %d bytes, not a suffix of survived+new (%d bytes); rotated=%s"
                       % (ctx, len(more), len(all2), len(whole), nums2))
             sim.step(1000000)
-    sim.nontrivial = total_auto > 0 and crash_in_rotate > 0
+    # ---- errno family: ONE interposed call of the history fails with an OSError instead of killing the process.  The
+    # application sees a normal return or the exception, reacts (tape: carry on with the same object / close and
+    # reconstruct / retry the write) and keeps writing.  Oracle = the statement's, checked after every operation from the
+    # fault on: the files are a contiguous, ordered suffix of what was written, where only a write that RAISED may be
+    # absent (or cut short); without a retention count no acknowledged byte is missing.
+    class App(Runner):
+        size_wit = "errno"
+
+        def __init__(self, wit):
+            self.wit = wit
+            self.segs = []             # (bytes, completed) in write order
+            self.suspect = False       # an operation on the current LogFile object has raised
+            self.raised = 0
+            Runner.__init__(self, True)
+
+        def fired(self):
+            return F.crashed_op is not None
+
+        def completed(self, data):
+            self.segs.append((data, True))
+
+        def construct(self):
+            f0 = self.fired()
+            try:
+                Runner.construct(self)
+            except (Violation, StepLimit):
+                raise
+            except Exception as e:
+                sim.check("errno-unfaulted-op-raised", self.fired() and not f0, self.wit,
+                          lambda: "LogFile() raised %s: %s although no fault was injected into it" % (type(e).__name__, e))
+                sim.probe("errno_constructor_raised")
+                # the fault is one-shot: the application simply tries again
+                with sim.guard("errno-unfaulted-op-raised", self.wit):
+                    Runner.construct(self)
+            self.suspect = False
+
+        def attempt(self, op, retried=False):
+            kind, data = op
+            f0 = self.fired()
+            try:
+                Runner.apply(self, op)
+                if self.fired() and not f0:
+                    sim.probe("errno_op_returned_normally")
+                return
+            except (Violation, StepLimit):
+                raise
+            except Exception as e:
+                hit = self.fired() and not f0
+                sim.check("errno-unfaulted-op-raised", hit or self.suspect, self.wit,
+                          lambda: "%s raised %s: %s on a LogFile no operation of which had failed before, with no fault injected into it"
+                          % (kind, type(e).__name__, e))
+                sim.probe("errno_op_raised" if hit else "errno_later_op_raised")
+                sim.event("raised", kind, type(e).__name__)
+            self.raised += 1
+            self.suspect = True
+            if data is not None:
+                self.segs.append((_enc(data), False))
+            react = sim.draw_choice(REACTIONS, "reaction")
+            if kind == "reconstruct":
+                react = "reconstruct"      # the object at hand is closed: nothing else to do
+            if react.startswith("reconstruct"):
+                sim.probe("errno_app_reconstructs")
+                try:
+                    self.lf.close()
+                except (Violation, StepLimit):
+                    raise
+                except Exception:
+                    pass
+                self.construct()
+            if react.endswith("retry") and data is not None and not retried:
+                sim.probe("errno_app_retries_write")
+                self.attempt(op, True)
+
+    def errno_oracle(app, ctx):
+        nums, parts, cur = files()
+        allb = b"".join(parts) + cur
+        lost = _match(app.segs, allb)
+        sim.check("contiguous-suffix", lost is not None, app.wit,
+                  lambda: "%s files %s+current hold %d bytes that are not a contiguous, ordered piece of the written stream (%d writes, %d of them raised): %r"
+                  % (ctx, nums, len(allb), len(app.segs), sum(1 for _, c in app.segs if not c), allb[-80:]))
+        if keep is None:
+            sim.check("nothing-lost-without-retention", lost == 0, app.wit,
+                      "%s %d bytes of writes that returned normally are missing (no retention count configured); rotated=%s" % (ctx, lost, nums))
+        else:
+            sim.check("at-most-N-rotated", len(nums) <= keep, app.wit, "%s %d rotated files kept with maxRotatedFiles=%d: %s" % (ctx, len(nums), keep, nums))
+        if nums != list(range(len(nums), 0, -1)):
+            sim.probe("errno_gap_in_numbering")
+
+    errno_in_rotate = 0
+    for (n, opname, rel, size) in plan:
+        j = next(i for i, m in enumerate(marks) if n <= m)
+        cls = "open" if opname.startswith("open") else opname
+        err = sim.draw_choice(ERRNOS[cls], "errno")
+        wit = "errno:%s@%s" % (ops[j][0], opname)
+        ctx0 = "%s at point %d/%d (%s %s) in op %d:" % (errno.errorcode[err], n, len(plan), opname, rel, j)
+        wipe()
+        F.arm(errno_at=n, err=err)
+        app = App(wit)
+        seen = None
+        for i, op in enumerate(ops + extra):
+            app.attempt(op)
+            # from the fault on, look at the directory after every operation that can have changed more than the tail of the
+            # current file (a rotation was entered, the operation raised, the application reconstructed); a plain append
+            # in between is covered by the next look
+            now = (app.rotations, app.raised)
+            if app.fired() and now != seen:
+                seen = now
+                errno_oracle(app, "%s after op %d (%s):" % (ctx0, i, op[0]))
+        sim.check("crash-fired", app.fired(), "errno", "fault point %d did not fire" % n)
+        sim.fault("errno@" + cls)
+        if opname in ("rename", "remove"):
+            errno_in_rotate += 1
+        with sim.guard("errno-unfaulted-op-raised", wit):
+            app.lf.close()
+        errno_oracle(app, "%s after the final close:" % ctx0)
+        sim.step(1000000)
+    sim.nontrivial = total_auto > 0 and crash_in_rotate > 0 and errno_in_rotate > 0
     sim.state((rot, keep, min(total_auto, 3)))
